@@ -310,6 +310,16 @@ static int upipe_ts_sync_control(struct upipe *upipe,
                                  int command, va_list args)
 {
     UBASE_HANDLED_RETURN(upipe_ts_sync_control_output(upipe, command, args));
+    if (command == UPIPE_SET_OUTPUT_SIZE) {
+        /* a unit holds at least a TS packet (a size of 0 would never
+         * consume the buffered stream) */
+        va_list args_copy;
+        va_copy(args_copy, args);
+        unsigned int output_size = va_arg(args_copy, unsigned int);
+        va_end(args_copy);
+        if (output_size < TS_SIZE)
+            return UBASE_ERR_INVALID;
+    }
     UBASE_HANDLED_RETURN(
         upipe_ts_sync_control_output_size(upipe, command, args));
     switch (command) {
